@@ -4,6 +4,7 @@ import (
 	"fmt"
 	"math/rand"
 	"regexp"
+	"sort"
 	"strings"
 
 	"github.com/TimothyStiles/poly"
@@ -78,13 +79,31 @@ func toStructWrapped(e *oracle.Loc) poly.Location {
 	return poly.Location{Start: e.Start - 1, End: e.End, FivePrimePartial: e.Partial5, ThreePrimePartial: e.Partial3}
 }
 
+// c02FeatureDress picks a feature key and qualifiers as they occur on real features (CDS with /codon_start,
+// /transl_table, /translation; gene; mRNA; exon with /number): none of them changes the bases a location denotes.
+func c02FeatureDress(h uint64) (string, map[string]string) {
+	switch h % 6 {
+	case 0, 1:
+		return "CDS", map[string]string{"codon_start": []string{"1", "2", "3"}[(h/6)%3], "transl_table": []string{"11", "1", "4"}[(h/18)%3], "product": "x", "translation": "MK"}
+	case 2:
+		return "gene", map[string]string{"gene": "x", "locus_tag": "X_0001"}
+	case 3:
+		return "mRNA", map[string]string{"product": "x"}
+	case 4:
+		return "exon", map[string]string{"number": fmt.Sprint(1 + (h/6)%9)}
+	}
+	return "misc_feature", map[string]string{"note": "x"}
+}
+
 func featureSeq(w *mon.W, id, parent string, loc poly.Location) (string, string) {
 	var got string
 	defer func() { retainCheck(w, id, "GetSequence", got, "Feature.GetSequence on an assembled feature") }()
 	p := mon.Try(func() {
 		var seq poly.Sequence
 		seq.Sequence = parent
-		f := poly.Feature{Type: "misc_feature", SequenceLocation: loc}
+		// what a location denotes does not depend on the kind of feature it belongs to or on its qualifiers
+		ty, attrs := c02FeatureDress(mon.Hash64(parent, fmt.Sprint(loc.Start, loc.End, len(loc.SubLocations))))
+		f := poly.Feature{Type: ty, SequenceLocation: loc, Attributes: attrs}
 		seq.AddFeature(&f)
 		got = seq.Features[0].GetSequence()
 	})
@@ -133,11 +152,23 @@ func minimalRecord(parent, locText string) string {
 	sb.WriteString("DEFINITION  location test.\n")
 	sb.WriteString("FEATURES             Location/Qualifiers\n")
 	lines := wrapLocation(locText, 58)
-	sb.WriteString("     misc_feature    " + lines[0] + "\n")
+	key, attrs := c02FeatureDress(mon.Hash64(locText, parent))
+	sb.WriteString("     " + key + strings.Repeat(" ", 16-len(key)) + lines[0] + "\n")
 	for _, l := range lines[1:] {
 		sb.WriteString(strings.Repeat(" ", 21) + l + "\n")
 	}
-	sb.WriteString("                     /note=\"x\"\n")
+	var ks []string
+	for k := range attrs {
+		ks = append(ks, k)
+	}
+	sort.Strings(ks)
+	for _, k := range ks {
+		if k == "codon_start" || k == "transl_table" || k == "number" {
+			fmt.Fprintf(&sb, "                     /%s=%s\n", k, attrs[k])
+		} else {
+			fmt.Fprintf(&sb, "                     /%s=\"%s\"\n", k, attrs[k])
+		}
+	}
 	sb.WriteString("ORIGIN\n")
 	for i := 0; i < len(parent); i += 60 {
 		end := i + 60
@@ -453,8 +484,113 @@ func randLoc(r *rand.Rand, depth, plen int) *oracle.Loc {
 	return l
 }
 
+// c02Siblings: several features of one record whose multi-line locations begin with the same line and go on
+// differently (splice variants sharing their leading exons). Each must report its own bases.
+func c02Siblings(w *mon.W, id string, r *rand.Rand) {
+	plen := 200 + r.Intn(1800)
+	parent := randCase(r, randString(r, "ACGT", plen), []float64{0, 1}[r.Intn(2)])
+	span := func() *oracle.Loc {
+		a := 1 + r.Intn(plen)
+		b := a + r.Intn(plen-a+1)
+		return &oracle.Loc{Kind: oracle.LocSpan, Start: a, End: b}
+	}
+	var shared []*oracle.Loc
+	for n := 0; n < 66; {
+		sp := span()
+		shared = append(shared, sp)
+		n += len(sp.String()) + 1
+	}
+	nf := 2 + r.Intn(3)
+	var locs []*oracle.Loc
+	for f := 0; f < nf; f++ {
+		j := &oracle.Loc{Kind: oracle.LocJoin, Subs: append([]*oracle.Loc(nil), shared...)}
+		for k := 1 + r.Intn(6); k > 0; k-- {
+			j.Subs = append(j.Subs, span())
+		}
+		locs = append(locs, j)
+	}
+	outer := r.Intn(3) == 0
+	var sb strings.Builder
+	fmt.Fprintf(&sb, "LOCUS       test%12d bp    DNA     linear   SYN 01-JAN-2020\n", plen)
+	sb.WriteString("DEFINITION  location test.\nFEATURES             Location/Qualifiers\n")
+	firstLines := map[string]int{}
+	for f, x := range locs {
+		if outer {
+			x = &oracle.Loc{Kind: oracle.LocComplement, Subs: []*oracle.Loc{x}}
+			locs[f] = x
+		}
+		lines := wrapLocation(x.String(), 58)
+		firstLines[lines[0]]++
+		key := []string{"mRNA", "CDS", "mRNA", "misc_feature"}[f%4]
+		sb.WriteString("     " + key + strings.Repeat(" ", 16-len(key)) + lines[0] + "\n")
+		for _, l := range lines[1:] {
+			sb.WriteString(strings.Repeat(" ", 21) + l + "\n")
+		}
+		fmt.Fprintf(&sb, "                     /note=\"variant %d\"\n", f+1)
+	}
+	sb.WriteString("ORIGIN\n")
+	for i := 0; i < plen; i += 60 {
+		end := i + 60
+		if end > plen {
+			end = plen
+		}
+		fmt.Fprintf(&sb, "%9d", i+1)
+		for j := i; j < end; j += 10 {
+			e := j + 10
+			if e > end {
+				e = end
+			}
+			sb.WriteString(" " + parent[j:e])
+		}
+		sb.WriteString("\n")
+	}
+	sb.WriteString("//\n")
+	rec := sb.String()
+	w.Begin(id, rec)
+	defer w.End()
+	w.Eval(true, mon.Hash64(rec))
+	if len(firstLines) != 1 {
+		w.Add("sibling_records_whose_first_lines_differ", 1)
+	}
+	rep := map[string]any{"record": rec}
+	var s poly.Sequence
+	if p := mon.Try(func() { buf := []byte(rec); s = genbank.Parse(buf); scribble(buf) }); p != "" {
+		w.Violation(id, "genbank.Parse of a record with sibling features: "+p, rep)
+		return
+	}
+	if len(s.Features) != nf {
+		w.Violation(id, fmt.Sprintf("genbank.Parse of a record with %d sibling features returned %d features", nf, len(s.Features)), rep)
+		return
+	}
+	for f, x := range locs {
+		want, err := x.Eval(parent)
+		if err != nil {
+			w.SelfCheckFail("sibling generator produced an expression outside its parent")
+			return
+		}
+		var got string
+		if p := mon.Try(func() { got = s.Features[f].GetSequence() }); p != "" {
+			w.Violation(id, fmt.Sprintf("GetSequence of sibling feature %d (%s): %s", f+1, clip(x.String(), 120), p), rep)
+			return
+		}
+		w.Add("sibling_features_evaluated", 1)
+		if got != want {
+			w.Violation(id, fmt.Sprintf("feature %d of %d whose locations begin with the same line reports %q, the INSDC reading of its own location %s is %q", f+1, nf, clip(got, 60), clip(x.String(), 160), clip(want, 60)), rep)
+			return
+		}
+	}
+}
+
 func runC02(w *mon.W) {
 	idx := 0
+	for k := 0; k < w.Pick(1500, 30000); k++ {
+		id := fmt.Sprintf("siblings-%d", k)
+		idx++
+		if !w.Want(id, idx) {
+			continue
+		}
+		c02Siblings(w, id, w.Rand(id))
+	}
 	parents6 := []string{"ACGTRM", "gaTKcy"}
 	leaves := allLeaves(6)
 	maxArity := w.Pick(3, 4)
